@@ -224,7 +224,10 @@ CHILD_BODIES = {
     "c": L("c"),                                       # single match
     "c|d": ALT(L("c"), L("d")),                        # choice at the root of the rule
     "ks": A_("ks", "+=", REF("ID"), None, False),      # single assignment as rule body
+    "=Ccd": REF("Ccd"),                                # single reference to a match rule
+    "=Cck": REF("Cck"),                                # single reference to a common rule
 }
+CHILD_EXTRA = {"=Ccd": ("Ccd", {}, SEQ(L("c"), L("d"))), "=Cck": ("Cck", {}, SEQ(L("c"), A_("k", "=", REF("ID"))))}
 ROOTS = {
     "x=A y=B": lambda: SEQ(A_("x", "=", REF("A")), A_("y", "=", REF("B"))),
     "A | B": lambda: ALT(REF("A"), REF("B")),
@@ -259,6 +262,9 @@ def frules(tier):
                                 rules = [("M", pm, rmk()), ("A", pa, CHILD_BODIES[ca])]
                                 if uses_b:
                                     rules.append(("B", pb, CHILD_BODIES[cb]))
+                                for c in (ca, cb):
+                                    if c in CHILD_EXTRA and CHILD_EXTRA[c] not in rules:
+                                        rules.append(CHILD_EXTRA[c])
                                 if crule:
                                     rules.append(crule)
                                 yield "%s|A=%s|B=%s" % (rname, ca, cb), rules
